@@ -63,7 +63,7 @@ pub fn content(u: &Universe, name: &str, v: i64) -> String {
     if v == 0 {
         return "local function (".to_string();
     }
-    let mut s = String::from("local _c = CFG\n");
+    let mut s = String::from("local _c = CFG\ndo end\n");
     if let Some(reqs) = u.requires.get(name) {
         for (i, m) in reqs.iter().enumerate() {
             s.push_str(&format!("local _m{} = require('{}')\n", i, rel_require(&path_of(name), &path_of(m))));
@@ -122,6 +122,12 @@ fn stamp_of(u: &Universe, resources: &Resources, name: &str) -> Value {
     if let Some(i) = text.find("cfg-") {
         let rest = &text[i + 4..];
         c = rest.chars().take_while(|ch| ch.is_ascii_alphanumeric()).collect();
+        // variants of a configuration are recognised by their effect on the text
+        if text.contains("do end") {
+            c.push_str("+skip");
+        } else if text.contains("local _c = ") {
+            c.push_str("+read");
+        }
     }
     for m in u.modules.iter() {
         if m == name {
